@@ -66,6 +66,14 @@ Theorem C19_amp_norm : forall (th ph : nat -> R) (k : nat),
 Proof. exact ak_norm. Qed.
 Print Assumptions C19_amp_norm.
 
+(* "the rest of the norm lies on the flag = 1 branch": the flag = 1 amplitudes are cos((2r+1)t) b_k / sqrt(N - 1) and the |b_k|^2
+   sum to N - 1, so that branch weighs cos^2((2r+1)t) and the flag = 0 branch sin^2((2r+1)t) *)
+Theorem C19_rest_weight : forall (n : nat) (th ph : nat -> R),
+  bigsum (fun k => RtoC (cos (th k / 2) * cos (th k / 2))) (2 ^ n) = 1 ->
+  bigsum (fun k => (bk th ph k * Cconj (bk th ph k))%C) (2 ^ n) = RtoC (2 ^ n - 1).
+Proof. exact rest_weight. Qed.
+Print Assumptions C19_rest_weight.
+
 (* the premises are satisfiable: one data qubit, the uniform vector (th = pi/2 twice) *)
 Example ex_norm : bigsum (fun k => RtoC (cos ((fun _ => PI / 2) k / 2) * cos ((fun _ => PI / 2) k / 2))) (2 ^ 1) = 1.
 Proof.
